@@ -139,6 +139,8 @@ class Emitter:
             return m.group(2)
         if s in STD_TYPEDEFS:
             return STD_TYPEDEFS[s]
+        if re.search(r'\(unnamed( enum)? at [^)]*\)$', s):
+            return 'unsigned int'
         for rx, ct in self.type_map:
             if re.fullmatch(rx, s):
                 return ct
@@ -493,7 +495,24 @@ class Emitter:
     def vardecl(self, d):
         if d['kind'] in ('TypedefDecl', 'TypeAliasDecl', 'UsingDecl', 'StaticAssertDecl'):
             return []
-        if d['kind'] == 'CXXRecordDecl' or d['kind'] == 'EnumDecl':
+        if d['kind'] == 'EnumDecl':
+            # block-scope enum: its constants become literals (values in declaration order unless given), its type unsigned int
+            self.rules['local_enum'] += 1
+            if not hasattr(self, 'local_enums'):
+                self.local_enums = {}
+            nxt = 0
+            for c in self.kids(d):
+                if c.get('kind') == 'EnumConstantDecl':
+                    ks = self.kids(c)
+                    if ks:
+                        v = self.unwrap(ks[0])
+                        if 'value' not in v:
+                            raise Unsupported('local enum constant with a non-literal value')
+                        nxt = int(v['value'])
+                    self.local_enums[c['name']] = nxt
+                    nxt += 1
+            return []
+        if d['kind'] == 'CXXRecordDecl':
             raise Unsupported('local type declaration')
         if d['kind'] != 'VarDecl':
             raise Unsupported('decl kind ' + d['kind'])
@@ -827,6 +846,8 @@ class Emitter:
             if nm in self.spec.get('globals', {}):
                 return self.spec['globals'][nm]
             raise Unsupported('reference to non-local variable %s (type %s); add to spec constants/globals' % (nm, self.tstr(r['type'])))
+        if rk == 'EnumConstantDecl' and nm in getattr(self, 'local_enums', {}):
+            return '%du' % self.local_enums[nm]
         if rk == 'EnumConstantDecl':
             et = self.strip_cv(self.tstr(r['type']))
             key = et + '::' + nm
